@@ -23,9 +23,9 @@ EVAL_KEY = "validate_calls_judged"
 DISTINCT_KEY = "documents"
 NSHARDS = {"quick": 8, "thorough": 16}
 FLOORS = {"quick": {"valid_docs_zero_messages": 1200, "single_faults": 2500, "double_faults": 800, "verdict_comparisons": 5000,
-                    "metamorphic_checks": 250, "validate_contract_evals": 6000, "distinct:object-x-fault": 60},
+                    "metamorphic_checks": 250, "validate_contract_evals": 6000, "distinct:object-x-fault": 60, "dict_api_faults": 500},
           "thorough": {"valid_docs_zero_messages": 5000, "single_faults": 40000, "double_faults": 15000, "verdict_comparisons": 60000,
-                       "metamorphic_checks": 6000, "validate_contract_evals": 60000, "distinct:object-x-fault": 60}}
+                       "metamorphic_checks": 1400, "validate_contract_evals": 60000, "distinct:object-x-fault": 60, "dict_api_faults": 3000}}
 ASSUMPTIONS = ["trusted base shared with mappyfile: the jsonschema Draft-4 evaluator and the schema files",
                "exclusiveMinimum written as a number has no effect under Draft 4 (as evaluated by both sides)"]
 DOMAIN = gen.DOMAIN + ["faults are injected only where exactly one schema violation results by construction (enum-only keywords, "
@@ -118,6 +118,52 @@ def recase(r, d):
     return d
 
 
+def leaf_paths(d, path=()):
+    """Paths to every scalar leaf and every list (at any nesting depth) of a dictionary, hidden keys excluded."""
+    out = []
+    if isinstance(d, dict):
+        for k, v in d.items():
+            if isinstance(k, str) and k.startswith("__"):
+                continue
+            out += leaf_paths(v, path + (k,))
+    elif isinstance(d, (list, tuple)):
+        if path:
+            out.append((path, "list"))
+        for i, v in enumerate(d):
+            out += leaf_paths(v, path + (i,))
+    else:
+        out.append((path, "scalar"))
+    return out
+
+
+def dict_fault(r, root):
+    """Edit a loaded dictionary through the dict API so that one value (at any depth / list index, also inside nested
+    lists such as POINTS pairs) has the wrong type or arity.  Returns a description or None."""
+    paths = leaf_paths(root)
+    if not paths:
+        return None
+    path, kind = r.choice(paths)
+    cur = root
+    for p_ in path[:-1]:
+        cur = cur[p_]
+    old = cur[path[-1]]
+    if isinstance(cur, tuple):
+        return None
+    if kind == "list":
+        new = list(old)[:-1] if old and r.random() < 0.5 else list(old) + [r.choice([7, "x"])]
+    elif isinstance(old, bool):
+        new = r.choice(["maybe", 7])
+    elif isinstance(old, (int, float)):
+        new = r.choice(["x", "not a number", True])
+    else:
+        new = r.choice([12345, 3.5, ["a", "b", "c", "d", "e"]])
+    try:
+        cur[path[-1]] = new
+    except TypeError:
+        return None
+    return {"path": [str(x) for x in path], "old": repr(old)[:60], "new": repr(new)[:60]}
+
+
 def run(ctx):
     import mappyfile
 
@@ -146,6 +192,18 @@ def run(ctx):
             res.count("valid_docs_zero_messages")
             res.seen("valid-root-types", run_.root["__type__"])
         verdict(res, eng, run_.root, case, msgs)
+        if j % 2 == 0:
+            # faults injected through the dict API (any depth, any list index, also items of nested lists)
+            rootc = copy.deepcopy(run_.root)
+            rootc = json.loads(json.dumps(rootc)) if j % 4 == 0 else rootc
+            df = dict_fault(r, rootc)
+            if df:
+                res.count("dict_api_faults")
+                res.seen("dict-fault-depth", f"depth={min(len(df['path']), 6)} intail={sum(1 for x in reversed(df['path']) if x.isdigit())}")
+                c2 = dict(case, part="dict-api-fault", fault=df)
+                m2 = safe_validate(res, eng, rootc, c2)
+                if m2 is not None:
+                    verdict(res, eng, rootc, c2, m2)
         if j % 5 == 0:
             # (3) metamorphic: key/value case + hidden keys; list vs single
             res.count("metamorphic_checks")
